@@ -13,7 +13,9 @@ CHECKS = {
         "explicit-state BFS over operation histories of the real UKVFile/Collection code against a dict reference model",
         "Every history of opens/closes/reopens/puts (incl. failing ones) up to the stated depth over 2..3 handles and 4 buffer sizes is executed on the real "
         "implementation with state deduplication; after every step every open handle and the file itself (independent parser) are compared with a dict of "
-        "successful puts. Exhaustive within the bound, which is where stale-index and failed-op defects live (they need <= 5 steps).",
+        "successful puts. Exhaustive within the bound, which is where stale-index and failed-op defects live (they need <= 5 steps). The Collection layer also takes "
+        "every accessor as the first call after a put / session entry, puts that are followed by no read at all (the queued state is carried forward), an explicit flush, and a "
+        "second library on another path used by the same process; the UKVFile layer has copy_items as a read route and as a put route.",
         "Bounded depth and alphabet (6 keys incl. 255/256 byte and binary, 3..4 values incl. 70 kB in thorough); single process (the reader/writer discipline is C04's); python dict as reference.",
         "4 C02",
     ),
@@ -25,7 +27,9 @@ CHECKS["C03"] = (
     "exhaustive crash-point enumeration: every byte prefix of the recorded write history of real append sessions x every recovery history of a menu (incl. a second crash at every byte)",
     "The real write history of each append session of a small alphabet is recorded through a stream proxy; the file image for EVERY crash point (every op prefix, every byte "
     "of every write) is built and every recovery history (reopen r; reopen a + put + reopen r; via UKVFile and via Collection sessions; second crash at every byte of the "
-    "recovery append followed by both again) is executed on it with real molli objects and compared with the reference (committed exact; session records whole or absent; no foreign key; later appends exact).",
+    "recovery append followed by both again; one long-lived object reading then appending; handles that pre-date the crash) is executed on it with real molli objects and compared with the "
+    "reference (committed exact; session records whole or absent; no foreign key; later appends exact). Value contents that parse as file structure (zeros, little blocks, an all-zero record) and an "
+    "alignment layer (a pad record of every length 0..12399 shifts the block headers across the reader's buffer-window edges) are part of the alphabet.",
     "Crash = process death: the file holds an in-order prefix of the session's writes (append-only premise checked by the recorder on every run); power-loss block reordering is outside the property. Sessions of 1..3 puts over 4..6 size classes (70 kB in thorough), 4 pre-states.",
     "4 C03",
 )
@@ -36,7 +40,8 @@ CHECKS["C04"] = (
     "stateless model checking of the implementation: controlled scheduler over real OS processes, all schedules up to a preemption bound (iterative context bounding) + one injected fault at every fault point",
     "2..3 real processes with long-lived Collection handles (different spellings of one path, different buffer sizes) run every program tuple of reading()/writing() sessions; a controller "
     "owns every lock and file action (fasteners trylock/unlock and the library stream are wrapped at run time) and executes EVERY schedule with <= 2 (thorough: 3) preemptions; a second "
-    "family injects one exception at every fault point of a session (body, encoder, n-th file write, close, open, final flush losing the buffered data); a lifecycle family adds sessions with a timeout (they give up instead of waiting) and processes that terminate normally while others keep working (the library's atexit hooks run under the scheduler). Oracles: file-level writer exclusion monitor, lock compatibility, no "
+    "family injects one exception at every fault point of a session (body, encoder, n-th file write, close, open, final flush losing the buffered data, an item that can never be written); further families: "
+    "the library re-created by another process, processes configured by different routes (environment / configure()), writing sessions that read before they store; a lifecycle family adds sessions with a timeout (they give up instead of waiting) and processes that terminate normally while others keep working (the library's atexit hooks run under the scheduler). Oracles: file-level writer exclusion monitor, lock compatibility, no "
     "deadlock, state idle/file closed/lock acquirable by a third process after every session, final contents (fresh reader + independent parser) vs. the records of completed sessions, "
     "readers see complete committed records only; each reported schedule is replayed and must give the same verdict. A TLA+ session-level model (models/Sessions.tla) is explored exhaustively by TLC; ALL of its "
     "behaviours are replayed against the implementation through the scheduler (the implementation must follow each and satisfy the same oracles), and every lock-level event sequence the explorer observes on the "
